@@ -43,53 +43,69 @@ func rulesC18(p *Prog, r *Report) {
 		if errResultIndex(fn) < 0 {
 			continue
 		}
-		for _, b := range fn.Blocks {
-			for _, in := range b.Instrs {
-				bo, ok := in.(*ssa.BinOp)
-				if !ok || bo.Op != token.SUB || !isInt64(bo.Type()) {
-					continue
+		// the elapsed-seconds value: an int64 handed to NewDec that is (or merges, through a phi
+		// or a local) a difference whose minuend is the block time
+		seenE := map[ssa.Value]bool{}
+		for _, c := range calls(fn) {
+			call, ok := c.(*ssa.Call)
+			if !ok || !strings.Contains(calleeFullName(&call.Call), "NewDec") || len(call.Call.Args) != 1 {
+				continue
+			}
+			e := call.Call.Args[0]
+			if !isInt64(e.Type()) || seenE[e] {
+				continue
+			}
+			var subs []*ssa.BinOp
+			var walk func(v ssa.Value, d int)
+			walk = func(v ssa.Value, d int) {
+				if d > 4 {
+					return
 				}
-				if !p.derivesFromBlockTime(bo.X) {
-					continue
-				}
-				// the difference feeds a decimal (years elapsed)
-				feeds := false
-				for _, ref := range *bo.Referrers() {
-					if c, ok := ref.(*ssa.Call); ok && strings.Contains(calleeFullName(&c.Call), "NewDec") {
-						feeds = true
+				switch x := v.(type) {
+				case *ssa.BinOp:
+					if x.Op == token.SUB && p.derivesFromBlockTime(x.X) {
+						subs = append(subs, x)
+					}
+				case *ssa.Phi:
+					for _, ed := range x.Edges {
+						walk(ed, d+1)
 					}
 				}
-				if !feeds {
-					continue
+			}
+			walk(e, 0)
+			if len(subs) == 0 {
+				continue
+			}
+			seenE[e] = true
+			r.Instance("R18.1")
+			r.FuncsSeen[fname(fn)] = true
+			construct := fname(fn) + " elapsed seconds"
+			g := &GuardSpec{Name: "elapsed >= 0", Local: func(f *ssa.Function, cond ssa.Value) (bool, bool) {
+				x, y, onT, onF, ok := p.CmpRel(cond)
+				if !ok || x == nil {
+					return false, false
 				}
-				r.Instance("R18.1")
-				r.FuncsSeen[fname(fn)] = true
-				construct := fname(fn) + " elapsed seconds"
-				d := ssa.Value(bo)
-				g := &GuardSpec{Name: "elapsed >= 0", Local: func(f *ssa.Function, cond ssa.Value) (bool, bool) {
-					x, y, onT, onF, ok := p.CmpRel(cond)
-					if !ok || x == nil {
-						return false, false
-					}
+				for _, bo := range subs {
 					switch {
 					case y != nil && sameValue(x, bo.X) && sameValue(y, bo.Y): // CmpRel normalises (a-b) ? 0 to a ? b
 						return onT.subsetOf(RGE), onF.subsetOf(RGE)
 					case y != nil && sameValue(x, bo.Y) && sameValue(y, bo.X):
 						return onT.subsetOf(RLE), onF.subsetOf(RLE)
-					case sameValue(x, d) && (y == nil || isZeroValue(y)):
-						return onT.subsetOf(RGE), onF.subsetOf(RGE)
-					case y != nil && sameValue(y, d) && isZeroValue(x):
-						return onT.subsetOf(RLE), onF.subsetOf(RLE)
 					}
-					return false, false
-				}}
-				// targets: success exits reachable from the block of the difference
-				ok2, _, w := p.guardedTargets(g, fn, nil, 0)
-				if ok2 {
-					r.OK("R18.1", construct, "the function cannot succeed with a negative elapsed time", p.instrPos(bo))
-				} else {
-					r.Fail("R18.1", construct, "the accrual formula can return successfully without the elapsed time having been tested non-negative: a time base in the future yields a negative accrual", p.instrPos(bo), w)
 				}
+				switch {
+				case sameValue(x, e) && (y == nil || isZeroValue(y)):
+					return onT.subsetOf(RGE), onF.subsetOf(RGE)
+				case y != nil && sameValue(y, e) && isZeroValue(x):
+					return onT.subsetOf(RLE), onF.subsetOf(RLE)
+				}
+				return false, false
+			}}
+			ok2, _, w := p.guardedTargets(g, fn, nil, 0)
+			if ok2 {
+				r.OK("R18.1", construct, "the function cannot succeed with a negative elapsed time", p.instrPos(call))
+			} else {
+				r.Fail("R18.1", construct, "the accrual formula can return successfully without the elapsed time having been tested non-negative: a time base in the future yields a negative accrual", p.instrPos(call), w)
 			}
 		}
 	}
